@@ -211,6 +211,11 @@ def extra_units():
     rt = copy.copy(c05.run_tagging_tasks)
     rt.prop = PROP
     out.append(rt)
+    # the parts the jobs wrote are all merged, however many there are (C20's merge_bams unit)
+    from contracts import c20
+    mb = copy.copy(c20.merge_bams)
+    mb.prop = PROP
+    out.append(mb)
     # contig-per-process mode: the job list of tag_multiome_multi_processing (every contig with reads in exactly one job)
     for u in c05.JOB_UNITS + [c05.contigs_with_reads]:
         v = copy.copy(u)
